@@ -142,7 +142,7 @@ impl Scenario for C07 {
             components_stubbed: &["TCP (SimNet)", "EPMD (stub)", "remote node (handshake acceptor + independent frame, header and term reader)"],
             assumptions: &["payloads come from the sub-space with an unambiguous denotation (DESIGN 2.4); node-local identifier forms are not generated"],
             fault_prefixes: &["fault.", "net."],
-            expected_probes: &["probe.c07.frame_checked_passthrough", "probe.c07.frame_checked_header", "probe.c07.interleaved_tasks", "probe.c07.op_failed_after_fault", "probe.c07.unlink_id_above_2_63", "probe.c07.asymmetric_flag_offer", "probe.c07.node_local_identifier", "probe.c07.same_process_other_form", "probe.c07.same_pair_again", "probe.c07.both_identifiers_node_local", "probe.c07.message_of_megabytes", "probe.c07.second_connect_refused", "probe.c07.second_connection_by_the_same_task", "probe.c07.local_side_is_a_live_process", "probe.c07.unencodable_rejected_cleanly", "probe.c07.nothing_written_after_failed_handshake"],
+            expected_probes: &["probe.c07.frame_checked_passthrough", "probe.c07.frame_checked_header", "probe.c07.interleaved_tasks", "probe.c07.op_failed_after_fault", "probe.c07.unlink_id_above_2_63", "probe.c07.asymmetric_flag_offer", "probe.c07.node_local_identifier", "probe.c07.same_process_other_form", "probe.c07.same_pair_again", "probe.c07.both_identifiers_node_local", "probe.c07.message_of_megabytes", "probe.c07.second_connect_refused", "probe.c07.second_connection_by_the_same_task", "probe.c07.every_atom_longer_than_255_bytes", "probe.c07.payloads_equal_as_terms_differ_on_the_wire", "probe.c07.local_side_is_a_live_process", "probe.c07.unencodable_rejected_cleanly", "probe.c07.nothing_written_after_failed_handshake"],
         }
     }
 }
@@ -432,9 +432,24 @@ async fn scenario(w: &Arc<World>, p: &Plan) {
                 };
                 w.stat("probe.c07.same_process_other_form");
             }
+            // both identifiers on nodes whose names are atoms of more than 255 bytes (then a control-only
+            // operation has no short atom at all)
+            let long_names = (op.seed >> 24) % 6 == 0;
+            if long_names {
+                if let Val::Pid { node, .. } = &mut to {
+                    *node = format!("peer@{}", "п".repeat(140));
+                    w.stat("probe.c07.every_atom_longer_than_255_bytes");
+                }
+            }
             prev_to = Some(to.clone());
             // the local side in node-local form as well: an operation none of whose identifiers is plain
-            let from = if (op.seed >> 20) % 3 == 0 { Val::Local(rr.bytes(8), Box::new(local_pid_for(0))) } else { local_pid_for(0) };
+            let from = if long_names {
+                Val::Pid { node: format!("sut@{}", "h".repeat(300)), id: 50_000, serial: 3, creation: 3 }
+            } else if (op.seed >> 20) % 3 == 0 {
+                Val::Local(rr.bytes(8), Box::new(local_pid_for(0)))
+            } else {
+                local_pid_for(0)
+            };
             if matches!(from, Val::Local(..)) && matches!(to, Val::Local(..)) {
                 w.stat("probe.c07.both_identifiers_node_local");
             }
@@ -455,7 +470,11 @@ async fn scenario(w: &Arc<World>, p: &Plan) {
                 }
                 "monitor" | "demonitor" => {
                     let mut rf = wire::gen_ref(&mut rr, None);
-                    if op.seed % 3 == 0 {
+                    if long_names {
+                        if let Val::Ref { node, .. } = &mut rf {
+                            *node = format!("sut@{}", "h".repeat(300));
+                        }
+                    } else if op.seed % 3 == 0 {
                         rf = Val::Local(rr.bytes(8), Box::new(rf));
                     }
                     let tag = if op.kind == "monitor" { 19 } else { 20 };
@@ -473,6 +492,19 @@ async fn scenario(w: &Arc<World>, p: &Plan) {
                     want.control = vec![Some(Val::int(6)), Some(from.clone()), Some(Val::atom("")), Some(Val::Atom(name.clone()))];
                     want.payload = Some(pl.clone());
                     conn.send_to_name(from_e.clone(), Atom::new(&name), from_val(&pl)).await
+                }
+                _ if (op.seed >> 28) % 8 == 3 => {
+                    // two sends in a row whose payloads compare equal as terms and differ on the wire: the sign
+                    // of a zero, the form of an identifier
+                    let ident = peer_pid_for(0, 77, op.seed);
+                    let a = Val::tuple(vec![Val::int(0), Val::int(ix as i128), Val::Float(0.0f64.to_bits()), ident.clone()]);
+                    let b = Val::tuple(vec![Val::int(0), Val::int(ix as i128), Val::Float((-0.0f64).to_bits()), Val::Local(rr.bytes(8), Box::new(ident))]);
+                    let first = conn.send_message(from_e.clone(), to_e.clone(), from_val(&a)).await;
+                    wants.lock().unwrap().push(Want { task: 0, idx: ix, kind: "send".into(), control: vec![Some(Val::int(2)), Some(Val::atom("")), Some(to.clone())], payload: Some(a), ok: first.is_ok(), err: first.err().map(|e| e.to_string()).unwrap_or_default(), expect_err: false });
+                    w.stat("probe.c07.payloads_equal_as_terms_differ_on_the_wire");
+                    want.control = vec![Some(Val::int(2)), Some(Val::atom("")), Some(to.clone())];
+                    want.payload = Some(b.clone());
+                    conn.send_message(from_e.clone(), to_e.clone(), from_val(&b)).await
                 }
                 _ => {
                     let pl = tagged_payload(0, ix, op);
